@@ -57,6 +57,16 @@ func newShard(n int, mopts ...gorums.ManagerOption) (*shard, error) {
 	if err != nil {
 		return nil, err
 	}
+	// readiness: on a loaded machine the first stream to a node may not be up yet when the manager
+	// returns; requests issued then fail fast with Unavailable ("stream is down").  The engines assume
+	// healthy connections unless they break them, so wait until every node answers a probe.
+	for _, nd := range s.all.Nodes() {
+		nd := nd
+		if !waitFor(15*time.Second, func() bool { return probe(nd, 500*time.Millisecond) }) {
+			return nil, fmt.Errorf("node %d did not become reachable within 15s", nd.ID())
+		}
+	}
+	cl.D.ResetLog()
 	return s, nil
 }
 
